@@ -105,6 +105,6 @@ Definition view_C15 (c : ctx) (real : oclass) (parsable : bool) : view :=
 (** all item-level views, by property id *)
 Definition item_views : list (string * (ctx -> list item -> view)) :=
   [("C01", view_C01); ("C03", view_C03); ("C04", view_C04g); ("C05", view_C05g); ("C06", view_C06);
-   ("C07", view_C07); ("C08", view_C08); ("C09", view_C09); ("C10", view_C10); ("C11", view_C11);
+   ("C07", view_C07); ("C08", view_C08g); ("C09", view_C09); ("C10", view_C10); ("C11", view_C11);
    ("C12", view_C12); ("C13", view_C13); ("C14", view_C14g); ("C16", view_C16); ("C18", view_C18);
    ("C19", view_C19g)].
